@@ -71,6 +71,23 @@ Fixpoint lflat (l : ltree) : list nat :=
 Definition opt_state (ts : string -> list nat) (t : utree) (i x : nat) : Prop :=
   exists l, optimal ts t l /\ nth_error (lflat l) i = Some x.
 
+(** nodes addressed by their path from the root (slot indexes, as Model.Reroot.paths, which
+    lists the paths of [nodes t] in the same order) *)
+Fixpoint lsub (l : ltree) (p : list nat) : option ltree :=
+  match p with
+  | [] => Some l
+  | i :: q => match nth_error (lslots l) i with
+              | Some (Some c) => lsub c q
+              | _ => None
+              end
+  end.
+Definition label_at (l : ltree) (p : list nat) : option nat :=
+  match lsub l p with Some c => Some (lroot c) | None => None end.
+
+(** state [x] occurs at the node of path [p] in some most-parsimonious labelling *)
+Definition opt_state_at (ts : string -> list nat) (t : utree) (p : list nat) (x : nat) : Prop :=
+  exists l, optimal ts t l /\ label_at l p = Some x.
+
 (** * Executable versions (tests and the judge's oracle) *)
 
 Definition list_min (l : list nat) : nat :=
